@@ -3,6 +3,7 @@ package checks
 import (
 	"bytes"
 	"fmt"
+	"github.com/bartossh/Computantis/src/serializer"
 	"math/big"
 	"math/rand"
 	"time"
@@ -342,6 +343,20 @@ func c04Worker(w *core.WorkerCtx) {
 		}
 		world.Deliver(parker, &parent, "parent")
 		muts := c04Mutants(rng, &base, &other, foreign, w.Thorough())
+		// alias addresses: the decoded form of an address with another version byte, re-encoded
+		for fi, f := range []func(v *accountant.Vertex) *string{
+			func(v *accountant.Vertex) *string { return &v.SignerPublicAddress },
+			func(v *accountant.Vertex) *string { return &v.Transaction.IssuerAddress },
+			func(v *accountant.Vertex) *string { return &v.Transaction.ReceiverAddress },
+		} {
+			mv := *ledger.CloneVertex(&base)
+			fp := f(&mv)
+			if raw, err := serializer.Base58Decode([]byte(*fp)); err == nil && len(raw) > 0 {
+				raw[0] ^= byte(1 + rng.Intn(255))
+				*fp = string(serializer.Base58Encode(raw))
+				muts = append(muts, mutant{mv, fmt.Sprintf("address-alias/field%d", fi), "an address replaced by its re-encoding under another version byte"})
+			}
+		}
 		w.R.Count("c04_base_vertices", 1)
 		w.R.Count("c04_mutants", len(muts))
 		for mi := range muts {
@@ -416,8 +431,38 @@ func c04Addresses(w *core.WorkerCtx) {
 			}()
 			if err == nil && !bytes.Equal(k, a.W.Public) {
 				w.R.Violate("C04", "address/corrupted-address-resolves-to-another-key/"+class, fmt.Sprintf("address %s corrupted to %s (%s) resolves to a different key", addr, mutated, class), nil)
+			} else if err == nil {
+				// "a corrupted address is rejected": a different string must not be taken for the wallet's address
+				w.R.Violate("C04", "address/corrupted-address-accepted/"+class, fmt.Sprintf("address %s corrupted to %s (%s) is accepted and resolves to the key of the original", addr, mutated, class), nil)
 			}
 			w.R.Count("c04_address_mutants", 1)
+		}
+		// mutations of the decoded form (version byte, key bytes, checksum bytes), re-encoded
+		if raw, err := serializer.Base58Decode([]byte(addr)); err == nil {
+			for p := 0; p < len(raw); p++ {
+				bits := []uint{uint(rng.Intn(8))}
+				if p == 0 || p >= len(raw)-4 || w.Thorough() {
+					bits = []uint{0, 1, 2, 3, 4, 5, 6, 7}
+				}
+				for _, bit := range bits {
+					m := append([]byte{}, raw...)
+					m[p] ^= 1 << bit
+					cls := "decoded-key-byte-flip"
+					if p == 0 {
+						cls = "decoded-version-byte-flip"
+					} else if p >= len(raw)-4 {
+						cls = "decoded-checksum-byte-flip"
+					}
+					check(cls, string(serializer.Base58Encode(m)))
+				}
+			}
+			for _, v := range []byte{1, 2, 0x7f, 0x80, 0xff} {
+				m := append([]byte{}, raw...)
+				m[0] = v
+				check("decoded-version-byte-replaced", string(serializer.Base58Encode(m)))
+			}
+			check("decoded-byte-appended", string(serializer.Base58Encode(append(append([]byte{}, raw...), 0))))
+			check("decoded-byte-prepended", string(serializer.Base58Encode(append([]byte{0}, raw...))))
 		}
 		positions := rng.Perm(len(addr))
 		if !w.Thorough() && len(positions) > 12 {
@@ -459,7 +504,7 @@ func init() {
 	core.Register(&core.Check{
 		Spec: core.Spec{
 			Prop:        "C04",
-			Rule:        "Mutation engine over valid base vertices (spice, contract, countersigned, boundary amount, data+spice, self transfer; re-created on a growing history). Mutations: 1/2/k bit flips, byte replacement, zeroing, truncation/extension/emptying of every byte-valued field; +-1..2^63 and bit flips on weight, both timestamps and both amount parts; bytes moved across subject|data, data|issuer, issuer|receiver boundaries; every field swapped with another valid vertex; signatures/addresses of a foreign wallet (wrong key over the right message, right key over another message); receiver signature stripped, replaced, forged, added. Identity mutations are discarded. Every mutant is offered through AddLeaf to three nodes: one that knows the parents but never saw the original, one that holds the original, one that has the original parked behind its parent: it must be refused, leave the ledger digest unchanged and not be parked. Addresses: every base58 substitution, transposition, case change, deletion, insertion at sampled positions, leading-1 insertion/removal must fail to resolve or resolve to the identical key. Non-trivial = every mutant; distinct by (field, mutation kind, node state).",
+			Rule:        "Mutation engine over valid base vertices (spice, contract, countersigned, boundary amount, data+spice, self transfer; re-created on a growing history). Mutations: 1/2/k bit flips, byte replacement, zeroing, truncation/extension/emptying of every byte-valued field; +-1..2^63 and bit flips on weight, both timestamps and both amount parts; bytes moved across subject|data, data|issuer, issuer|receiver boundaries; every field swapped with another valid vertex; signatures/addresses of a foreign wallet (wrong key over the right message, right key over another message); receiver signature stripped, replaced, forged, added. Identity mutations are discarded. Every mutant is offered through AddLeaf to three nodes: one that knows the parents but never saw the original, one that holds the original, one that has the original parked behind its parent: it must be refused, leave the ledger digest unchanged and not be parked. Addresses: every base58 substitution, transposition, case change, deletion, insertion at sampled positions, leading-1 insertion/removal, and every bit flip / replacement of the decoded version, key and checksum bytes re-encoded, must fail to resolve (a corrupted address is rejected, not taken for the original); vertices carrying such an alias as sealer, issuer or receiver are mutants like any other. Non-trivial = every mutant; distinct by (field, mutation kind, node state).",
 			Assumptions: []string{"ed25519 and sha256 are not broken; a vertex completely re-sealed by another node is a new vertex, not a mutation", ledgerAssume},
 			MinEvals:    3000, MinNontriv: 100,
 		},
